@@ -78,15 +78,15 @@ Section Propagate3.
 
   Lemma xmp3_spec : GB gen_nn2_xmp = Mp El T.
   Proof.
-    unfold gen_nn2_xmp. cbv zeta. rewrite ts_spec, mdf3_spec, omgcof3_spec.
-    unfold Mp. rewrite delta_w3, delta_M3. ring.
+    unfold gen_nn2_xmp. cbv zeta. rewrite ts_spec, omgcof3_spec. rewrite xmdot_spec by hyp.
+    unfold Mp. rewrite delta_w3, delta_M3. unfold MDF. sp. norm_args. ring.
   Qed.
 
   Lemma omega3_spec : GB gen_nn2_omega = w El T.
   Proof.
-    unfold gen_nn2_omega. cbv zeta. rewrite ts_spec, mdf3_spec, omgcof3_spec.
-    rewrite omgdot_spec by hyp.
-    unfold w. rewrite delta_w3, delta_M3. unfold wDF. sp. ring.
+    unfold gen_nn2_omega. cbv zeta. rewrite ts_spec, omgcof3_spec.
+    rewrite xmdot_spec, omgdot_spec by hyp.
+    unfold w. rewrite delta_w3, delta_M3. unfold wDF, MDF. sp. norm_args. ring.
   Qed.
 
   Lemma xnode3_spec : GB gen_nn0_xnode = Om El T.
@@ -100,7 +100,7 @@ Section Propagate3.
   Proof.
     unfold gen_nn2_guard0, gen_nn2_tempe. rewrite ts_spec, xmp3_spec. rewrite c4_spec, c5_spec by hyp.
     unfold e_unclamped, gen_sgp4_sinXMO. sp. fold M0.
-    replace (sin (GA gen_oe_mean_anomaly)) with (sin M0) by reflexivity. ring.
+    replace (sin (GA gen_oe_mean_anomaly)) with (sin M0) by reflexivity. norm_args. ring.
   Qed.
 
   Lemma a3_spec : GB gen_nn0_a = a El T.
@@ -123,7 +123,7 @@ Section Propagate3.
   Lemma axn3_spec : GB gen_nn2_axn = axN El T ecl3.
   Proof.
     unfold gen_nn2_axn. cbv zeta. fold (GB gen_nn2_tempe). fold (GB gen_nn2_guard0).
-    rewrite omega3_spec, e_unclamped3_spec. reflexivity.
+    rewrite omega3_spec, e_unclamped3_spec. unfold axN. fold (clamp_e (e_unclamped El T)). fold ecl3. eq_mod_ring.
   Qed.
 
   Lemma ecl3_sq : 0 < 1 - ecl3 ^ 2.
@@ -142,10 +142,12 @@ Section Propagate3.
 
   Lemma xlt3_spec : a El T <> 0 -> GB gen_nn3_xlt = ILT El T ecl3.
   Proof.
-    intros Ha. unfold gen_nn3_xlt. cbv zeta. rewrite IL3_spec, axn3_spec, e_unclamped3_spec, a3_spec.
+    intros Ha. unfold gen_nn3_xlt. cbv zeta.
+    rewrite xmp3_spec, omega3_spec, xnode3_spec, axn3_spec, e_unclamped3_spec, a3_spec. unfold gen_nn0_templ. rewrite ts_spec.
+    rewrite xnodp_spec, t2cof_spec, t3cof_spec, t4cof_spec, t5cof_spec by hyp.
     fold (clamp_e (e_unclamped El T)). fold ecl3.
     rewrite xlcof_spec by hyp.
-    unfold ILT, ILL, axN, beta. sp. fold i0.
+    unfold ILT, IL, ILL, axN, beta. sp. fold i0.
     replace (sin (P_Sgp4Init.i0 incl_deg)) with (sin i0) by reflexivity.
     pose proof ecl3_sq as Q. rewrite pow2_sqrt by lra.
     unfold k2, A30. field. split; [exact Hth|]. split; [lra|exact Ha].
@@ -155,10 +157,10 @@ Section Propagate3.
   Proof. intros Ha. unfold gen_nn2_elsq, eL2. rewrite axn3_spec, ayn3_spec by exact Ha. ring. Qed.
 
   Lemma pl3_spec : a El T <> 0 -> GB gen_nn2_pl = pL El T ecl3.
-  Proof. intros Ha. unfold gen_nn2_pl, pL. rewrite a3_spec, elsq3_spec by exact Ha. reflexivity. Qed.
+  Proof. intros Ha. unfold gen_nn2_pl, pL. rewrite a3_spec, elsq3_spec by exact Ha. eq_mod_ring. Qed.
 
   Lemma betal3_spec : a El T <> 0 -> GB gen_nn2_betal = sqrt (1 - eL2 El T ecl3).
-  Proof. intros Ha. unfold gen_nn2_betal. rewrite elsq3_spec by exact Ha. reflexivity. Qed.
+  Proof. intros Ha. unfold gen_nn2_betal. rewrite elsq3_spec by exact Ha. eq_mod_ring. Qed.
 
   (* ---------- the short-period finishing map, for any value Ew of E + omega ---------- *)
   Variable Ew : R.
@@ -172,17 +174,17 @@ Section Propagate3.
   Lemma fin3_ecosE_spec : GC gen_nn2_fin_ecosE = ecosE El T ecl3 Ew.
   Proof.
     unfold gen_nn2_fin_ecosE, gen_nn0_fin_cosEPW, gen_nn0_fin_sinEPW, ecosE.
-    rewrite axn3_spec, (ayn3_spec Ha3'). reflexivity.
+    rewrite axn3_spec, (ayn3_spec Ha3'). eq_mod_ring.
   Qed.
 
   Lemma fin3_esinE_spec : GC gen_nn2_fin_esinE = esinE El T ecl3 Ew.
   Proof.
     unfold gen_nn2_fin_esinE, gen_nn0_fin_cosEPW, gen_nn0_fin_sinEPW, esinE.
-    rewrite axn3_spec, (ayn3_spec Ha3'). reflexivity.
+    rewrite axn3_spec, (ayn3_spec Ha3'). eq_mod_ring.
   Qed.
 
   Lemma fin3_r_spec : GC gen_nn2_fin_r = r El T ecl3 Ew.
-  Proof. unfold gen_nn2_fin_r, r. rewrite a3_spec, fin3_ecosE_spec. reflexivity. Qed.
+  Proof. unfold gen_nn2_fin_r, r. rewrite a3_spec, fin3_ecosE_spec. eq_mod_ring. Qed.
 
   Lemma ecosE3_lt_1 : ecosE El T ecl3 Ew < 1.
   Proof.
@@ -204,40 +206,24 @@ Section Propagate3.
   Proof. unfold pL. apply Rmult_lt_0_compat; lra. Qed.
 
   Lemma fin3_invR_spec : GC gen_nn2_fin_invR = 1 / r El T ecl3 Ew.
-  Proof. unfold gen_nn2_fin_invR. rewrite fin3_r_spec. reflexivity. Qed.
+  Proof. unfold gen_nn2_fin_invR. rewrite fin3_r_spec. eq_mod_ring. Qed.
 
-  Lemma sinu3_arg_spec :
-    GB gen_nn0_a * GC gen_nn2_fin_invR *
-      (GC gen_nn0_fin_sinEPW - GB gen_nn2_ayn - GB gen_nn2_axn * GC gen_nn2_fin_esinE * (1 / (1 + GB gen_nn2_betal)))
-    = sinu El T ecl3 Ew.
-  Proof.
-    rewrite a3_spec, fin3_invR_spec, axn3_spec, (ayn3_spec Ha3'), fin3_esinE_spec, (betal3_spec Ha3').
-    unfold gen_nn0_fin_sinEPW, sinu. pose proof r3_pos.
-    assert (0 <= sqrt (1 - eL2 El T ecl3)) by apply sqrt_pos.
-    field. split; lra.
-  Qed.
-
-  Lemma cosu3_arg_spec :
-    GB gen_nn0_a * GC gen_nn2_fin_invR *
-      (GC gen_nn0_fin_cosEPW - GB gen_nn2_axn + GB gen_nn2_ayn * GC gen_nn2_fin_esinE * (1 / (1 + GB gen_nn2_betal)))
-    = cosu El T ecl3 Ew.
-  Proof.
-    rewrite a3_spec, fin3_invR_spec, axn3_spec, (ayn3_spec Ha3'), fin3_esinE_spec, (betal3_spec Ha3').
-    unfold gen_nn0_fin_cosEPW, cosu. pose proof r3_pos.
-    assert (0 <= sqrt (1 - eL2 El T ecl3)) by apply sqrt_pos.
-    field. split; lra.
-  Qed.
+  Ltac fin_names :=
+    cbv zeta; rewrite ?a3_spec, ?fin3_invR_spec, ?axn3_spec, ?(ayn3_spec Ha3'), ?fin3_esinE_spec, ?(betal3_spec Ha3');
+    unfold gen_nn0_fin_sinEPW, gen_nn0_fin_cosEPW.
+  Ltac fin_side := pose proof r3_pos; assert (0 <= sqrt (1 - eL2 El T ecl3)) by apply sqrt_pos.
 
   Lemma fin3_u_spec : GC gen_nn2_fin_u = atan2 (sinu El T ecl3 Ew) (cosu El T ecl3 Ew).
-  Proof. unfold gen_nn2_fin_u. cbv zeta. rewrite sinu3_arg_spec, cosu3_arg_spec. reflexivity. Qed.
+  Proof.
+    unfold gen_nn2_fin_u. fin_names. fin_side.
+    f_equal; [unfold sinu | unfold cosu]; field; split; lra.
+  Qed.
 
   Lemma fin3_sin2u_spec : GC gen_nn2_fin_sin2u = sin2u El T ecl3 Ew.
-  Proof. unfold gen_nn2_fin_sin2u. cbv zeta. rewrite sinu3_arg_spec, cosu3_arg_spec. unfold sin2u. ring. Qed.
+  Proof. unfold gen_nn2_fin_sin2u. fin_names. fin_side. unfold sin2u, sinu, cosu. field. split; lra. Qed.
 
   Lemma fin3_cos2u_spec : GC gen_nn2_fin_cos2u = cos2u El T ecl3 Ew.
-  Proof.
-    unfold gen_nn2_fin_cos2u. cbv zeta. rewrite !cosu3_arg_spec. unfold cos2u. ring.
-  Qed.
+  Proof. unfold gen_nn2_fin_cos2u. fin_names. fin_side. unfold cos2u, cosu. field. split; lra. Qed.
 
   Ltac fin_norm :=
     cbv zeta; rewrite ?fin3_r_spec, ?fin3_cos2u_spec, ?fin3_sin2u_spec, ?fin3_u_spec, ?fin3_esinE_spec, ?fin3_invR_spec,
